@@ -2,6 +2,7 @@
 
 pub mod c01;
 pub mod c02;
+pub mod c03;
 pub mod c04;
 pub mod c06;
 pub mod c07;
@@ -31,6 +32,7 @@ pub fn registry() -> Vec<PropDef> {
     vec![
         def("C01", 1, c01::case, Some(c01::sweep), true),
         def("C02", 2, c02::case, None, true),
+        def("C03", 3, c03::case, None, true),
         def("C04", 4, c04::case, None, true),
         def("C06", 6, c06::case, Some(c06::golden), true),
         def("C07", 7, c07::case, None, true),
